@@ -9,6 +9,7 @@ read-only.
 -/
 import SamVerif.Model.Dispatch
 import SamVerif.Spec.RedisFlags
+import SamVerif.Gen.Upstream
 namespace SamVerif.Props.C14
 open SamVerif SamVerif.Dispatch
 
@@ -124,6 +125,40 @@ example : dispatch [77,83,69,84] 5 = .forward [(setName, 1), (setName, 3)] := by
 example : Spec.RedisFlags.canModify [115,111,114,116] = true := by decide      -- sort
 example : candidates .both true 2 = [.M, .R, .R] := by decide
 
+/-- **The code the model was written against.** The statements of the modelled functions,
+regenerated from the current source on every run, are the ones the model was written against;
+any edit to one of them makes this obligation fail and starts a search for a failing input. -/
+theorem code_matches_model :
+    Gen.Upstream.chooseHost =
+      ["hash := crc16(hashtag(routingKey))",
+      "inst := u.slots[hash&(slotNum-1)]",
+      "if inst == nil { return u.randomHost() }",
+      "if !req.IsReadOnly() { return inst.Addr, nil }",
+      "// read-only requests var candidates []string",
+      "readStrategy := redis.ReadStrategy_MASTER",
+      "if option := u.cfg.GetRedisOption(); option != nil { readStrategy = option.ReadStrategy }",
+      "switch readStrategy { case redis.ReadStrategy_MASTER: candidates = append(candidates, inst.Addr) case redis.ReadStrategy_BOTH: candidates = append(candidates, inst.Addr) fallthrough case redis.ReadStrategy_REPLICA: for _, replica := range inst.Replicas { candidates = append(candidates, replica.Addr) } }",
+      "if len(candidates) == 0 { candidates = append(candidates, inst.Addr) }",
+      "i := 0",
+      "l := len(candidates)",
+      "if l > 1 { i = int(time.Now().UnixNano()) % l }",
+      "return candidates[i], nil"] ∧
+    Gen.Upstream.doSlotsRefresh =
+      ["v := newArray( *newBulkString(\"cluster\"), *newBulkString(\"nodes\"), )",
+      "req := newSimpleRequest(v)",
+      "addr, err := u.randomHost()",
+      "if err != nil { return err }",
+      "u.MakeRequestToHost(addr, req)",
+      "select { case <-req.done: case <-u.quit: return errors.New(upstreamExited) }",
+      "resp := req.Response()",
+      "if resp.Type == Error { return errors.New(string(resp.Text)) }",
+      "if resp.Type != BulkString { return errInvalidClusterNodes }",
+      "insts, err := parseClusterNodes(string(resp.Text))",
+      "if err != nil { return err }",
+      "for _, inst := range insts { for _, slot := range inst.Slots { if slot < 0 || slot >= slotNum { continue } u.slots[slot] = inst } }",
+      "return nil"] := by
+  refine ⟨rfl, rfl⟩
+
 end SamVerif.Props.C14
 
 #print axioms SamVerif.Props.C14.readonly_sound
@@ -136,3 +171,4 @@ end SamVerif.Props.C14
 #print axioms SamVerif.Props.C14.local_never_forwards
 #print axioms SamVerif.Props.C14.well_known_unsupported
 #print axioms SamVerif.Props.C14.normaliser_is_ascii
+#print axioms SamVerif.Props.C14.code_matches_model
